@@ -122,7 +122,16 @@ pub fn run(rep: &mut Report) {
             } else {
                 -1.0
             };
-            match rng.below(5) {
+            match rng.below(6) {
+                // a time part worth about a multiple of 2^31 days (valid: up to 2^53 s): the carry into days does not fit in 32 bits
+                5 => {
+                    let days = *rng.pick(&[1i64 << 31, 1 << 32, 3 << 31, 5 << 32, 24 << 32]) + rng.range(-3, 3);
+                    if rng.bool() {
+                        fields[4] = sign * (days * 24 + rng.range(0, 23)) as f64;
+                    } else {
+                        fields[6] = sign * (days * 86_400 + rng.range(0, 86_399)) as f64;
+                    }
+                }
                 0 => fields[9] = sign * rng.range128(0, 2 * NS_PER_DAY) as f64,
                 1 => {
                     fields[4] = sign * rng.range(0, 50) as f64;
